@@ -17,7 +17,7 @@ from vmon import bits
 LEVEL = "exploration"
 SHARDS = {"quick": 8, "thorough": 16}
 MUST = ["battery.int", "battery.float", "battery.str", "battery.bytes", "battery.bool", "copy.values", "copy.packets",
-        "rawdefault.checks", "pair.ops", "rewrap.checks", "rewrap.compared", "harvested.values", "harvested.class_vs_model"]
+        "rawdefault.checks", "pair.ops", "harvested.segmented_packets", "copy.independence_checks", "rewrap.checks", "rewrap.compared", "harvested.values", "harvested.class_vs_model"]
 RULE = ("for every (class, value, raw_value) case the harness builds v = Class(value[, raw_value]) and the plain "
         "built-in twin, runs ~60 operations on both (comparison, hash, bool, repr/str/format, arithmetic, "
         "conversion, slicing, containment, codec, dict-key and sort use) and compares outcome and outcome type "
@@ -288,6 +288,10 @@ def check_packet_copy(ctx, pkt, origin):
             continue
         for k in pkt:
             a, b = pkt[k], c[k]
+            if not hasattr(a, "raw_value"):
+                ctx.violation(f"packet/item-without-raw_value/{type(a).__name__}", f"item {k} of a parsed packet is a plain {type(a).__name__} ({a!r}) without raw_value",
+                              dict(wit, item=k))
+                break
             if type(a) is not type(b) or not same(plain(a), plain(b)) or type(a.raw_value) is not type(b.raw_value) \
                     or not same(plain(a.raw_value), plain(b.raw_value)):
                 ctx.violation(f"copy/packet/{rname}/item", f"item {k}: {a!r}/{a.raw_value!r} -> {b!r}/{getattr(b, 'raw_value', None)!r}", wit)
@@ -301,6 +305,23 @@ def check_packet_copy(ctx, pkt, origin):
             return list(a) == list(b) and all(same(plain(a[k]), plain(b[k])) for k in a)
         if not same_view(c.header, pkt.header) or not same_view(c.user_data, pkt.user_data):
             ctx.violation(f"copy/packet/{rname}/views", "header/user_data views differ", wit)
+        # a deep copy / an unpickled packet is independent of the original: what happens to one afterwards (its cursor moving on,
+        # items added) leaves the other unchanged - e.g. a snapshot of a partially parsed packet
+        if rname != "copy" and rd is not None and type(rd) is packets.RawPacketData:
+            p0, n0 = pkt.raw_data.pos, len(pkt)
+            rd.pos = (rd.pos + 5) % (8 * len(rd) + 1)
+            c["__added_to_the_copy__"] = 1
+            ctx.count("copy.independence_checks")
+            if pkt.raw_data.pos != p0 or len(pkt) != n0:
+                ctx.violation(f"copy/packet/{rname}/not-independent", f"moving the cursor of / adding an item to the {rname} changed the original "
+                              f"(cursor {p0} -> {pkt.raw_data.pos}, items {n0} -> {len(pkt)})", wit)
+                pkt.raw_data.pos = p0
+                pkt.pop("__added_to_the_copy__", None)
+            p1 = rd.pos
+            pkt.raw_data.pos = (p0 + 3) % (8 * len(rd) + 1)
+            if rd.pos != p1:
+                ctx.violation(f"copy/packet/{rname}/not-independent", f"moving the cursor of the original changed the {rname} (cursor {p1} -> {rd.pos})", wit)
+            pkt.raw_data.pos = p0
 
 
 def run(ctx):
@@ -358,8 +379,38 @@ def run(ctx):
                 ctx.sample({"class": cls.__name__, "value": v, "raw_value_given": r if has else "(none)"})
 
     pair_battery(ctx, rng)
+    harvest_segmented(ctx)
     harvest(ctx)
     harvest_generated(ctx)
+
+
+def harvest_segmented(ctx):
+    """packets re-assembled from segments (combine_segmented_packets=True): every item of what the generator yields is still a
+    value object of the five classes carrying its raw value, and the packet survives copying"""
+    from space_packet_parser import common
+    from vmon import docs
+    from vmon.libutil import load_definition
+    from vmon.props import c12
+    defn = load_definition(docs.header_plus_blob_doc())
+    five = (common.IntParameter, common.FloatParameter, common.StrParameter, common.BinaryParameter, common.BoolParameter)
+    for hi, hist in enumerate(([("F", 0, False), ("C", 0, False), ("L", 0, False)], [("U", 0, False), ("F", 1, False), ("L", 1, False), ("U", 1, False)],
+                               [("F", 0, False), ("F", 1, False), ("L", 0, False), ("C", 1, False), ("L", 1, False)])):
+        if not ctx.mine(hi):
+            continue
+        pk = c12.make_packets(hist, 16382, (10, 20))
+        with warnings.catch_warnings():
+            warnings.simplefilter("ignore")
+            out = list(defn.packet_generator(b"".join(p["raw"] for p in pk), combine_segmented_packets=True, secondary_header_bytes=(0, 4, 1)[hi]))
+        for pkt in out:
+            ctx.count("evaluations")
+            ctx.count("harvested.segmented_packets")
+            for name, val in pkt.items():
+                if type(val) not in five or not hasattr(val, "raw_value"):
+                    ctx.violation(f"harvest/segmented/class/{type(val).__name__}", f"item {name} of a packet re-assembled from segments is a {type(val).__name__} "
+                                  f"({val!r}), raw_value {'present' if hasattr(val, 'raw_value') else 'missing'}", {"history": hi, "item": name})
+                    break
+            else:
+                check_packet_copy(ctx, pkt, origin=f"segmented:{hi}")
 
 
 def pair_battery(ctx, rng):
